@@ -645,7 +645,7 @@ static void checkConvert(Ctx& c, long ci, Rng& r) {
             dq = std::max(dq, e1);
         }
         c.check(std::string("convert:roundtrip-q:") + (euler ? "euler-quat-euler" : "quat-euler-quat"), dq, 1e-9, [&] { return wit().set("q_back", jV(back.getQ())); });
-        c.check("convert:roundtrip-u", s.getNU() ? vmaxabs(back.getU() - out.getU()) : 0, 1e-14 * (1 + (s.getNU() ? vmaxabs(s.getU()) : 0)), wit);
+        c.check("convert:speeds-lost", s.getNU() ? vmaxabs(back.getU() - out.getU()) : 0, 1e-14 * (1 + (s.getNU() ? vmaxabs(s.getU()) : 0)), [&] { return wit().set("what", "converting back").set("u_back", jV(back.getU())); });
     }
     if (c.wantSample()) c.sample(Json::obj().set("relation", "convert").set("model", d.shortStr()).set("direction", dir).set("q_in", jV(s.getQ())).set("q_out", jV(out.getQ())));
 }
